@@ -1,4 +1,450 @@
 package main
 
-func cmdCheck() int  { return 2 }
-func cmdReplay() int { return 2 }
+import (
+	"encoding/json"
+	"fmt"
+	"os"
+	"path/filepath"
+	"sort"
+	"strconv"
+	"strings"
+	"time"
+)
+
+type knownFinding struct {
+	Kind       string `json:"kind"` // "known" | "fixed"
+	Property   string `json:"property"`
+	Obligation string `json:"obligation,omitempty"`
+	Witness    string `json:"witness,omitempty"`
+	What       string `json:"what"`
+	Commit     string `json:"commit,omitempty"`
+}
+
+type baselineFile struct {
+	Property    string   `json:"property"`
+	Obligations []string `json:"obligations"`
+}
+
+func jsonMarshalIndent(v interface{}) ([]byte, error) { return json.MarshalIndent(v, "", " ") }
+
+func loadKnown() []knownFinding {
+	var ks []knownFinding
+	b, err := os.ReadFile(filepath.Join(*verifDir, "known_findings.json"))
+	if err != nil {
+		return nil
+	}
+	_ = json.Unmarshal(b, &ks)
+	return ks
+}
+
+func loadBaseline(prop string) map[string]bool {
+	b, err := os.ReadFile(filepath.Join(*verifDir, "baseline", prop+".json"))
+	if err != nil {
+		return nil
+	}
+	var bf baselineFile
+	if json.Unmarshal(b, &bf) != nil {
+		return nil
+	}
+	m := map[string]bool{}
+	for _, o := range bf.Obligations {
+		m[o] = true
+	}
+	return m
+}
+
+func explicitKind(k string) bool {
+	switch k {
+	case "ensures", "exit", "inv-entry", "inv-preserved", "call-pre", "assert", "decreases":
+		return true
+	}
+	return false
+}
+
+// oblKindOf extracts the kind from an obligation name "<func>/<kind>#<label>".
+func oblKindOf(name string) string {
+	i := strings.Index(name, "/")
+	for i >= 0 {
+		rest := name[i+1:]
+		if j := strings.Index(rest, "#"); j >= 0 && !strings.Contains(rest[:j], "/") {
+			return rest[:j]
+		}
+		k := strings.Index(rest, "/")
+		if k < 0 {
+			break
+		}
+		i += k + 1
+	}
+	return ""
+}
+
+type violation struct {
+	Obligation string
+	Reason     string
+	Replay     string
+	NoInput    bool
+}
+
+func cmdCheck() int {
+	start := time.Now()
+	prop := *propFlag
+	if prop == "" {
+		fmt.Fprintln(os.Stderr, "check: -prop required")
+		return 2
+	}
+	seed, _ := strconv.Atoi(os.Getenv("VERIF_SEED"))
+	secs := 10
+	if *tier == "thorough" {
+		secs = 60
+	}
+	if *timeoutS > 0 {
+		secs = *timeoutS
+	}
+	replayDir := filepath.Join(*verifDir, "replays")
+	_ = os.MkdirAll(replayDir, 0o755)
+	evPath := filepath.Join(*verifDir, "evidence", prop+".json")
+	_ = os.MkdirAll(filepath.Dir(evPath), 0o755)
+
+	var viols []violation
+	failClosed := func(name, reason string) {
+		for i := range viols {
+			if viols[i].Obligation == name {
+				if !strings.Contains(viols[i].Reason, reason) && len(viols[i].Reason) < 2000 {
+					viols[i].Reason += "; " + reason
+				}
+				return
+			}
+		}
+		viols = append(viols, violation{Obligation: name, Reason: reason, NoInput: true})
+	}
+
+	pats := specPackages(prop)
+	if len(pats) == 0 {
+		failClosed(prop+"/setup", "no contract file in "+*repoDir+" mentions "+prop)
+	}
+	var p *Prog
+	var err error
+	if len(pats) > 0 {
+		p, err = loadProg(pats)
+		if err != nil {
+			failClosed(prop+"/load", "the tree does not load with -tags=verif: "+err.Error())
+		}
+	}
+	smtDir, _ := os.MkdirTemp("", "govc-smt")
+	defer os.RemoveAll(smtDir)
+
+	var results []*funcResult
+	if p != nil {
+		for _, m := range p.specs.Errors {
+			failClosed(prop+"/spec", "contract file error: "+m)
+		}
+		// canaries are run together with the property
+		var problems []string
+		results, problems = runPropWithCanaries(p, prop, secs, smtDir)
+		for _, pr := range problems {
+			failClosed(prop+"/contract", pr)
+		}
+	}
+
+	known := loadKnown()
+	knownByObl := map[string]knownFinding{}
+	for _, k := range known {
+		if k.Kind == "known" && k.Property == prop {
+			knownByObl[k.Obligation] = k
+		}
+	}
+	baseline := loadBaseline(prop)
+
+	type oblRec struct {
+		Name    string  `json:"name"`
+		Result  string  `json:"result"`
+		Backend string  `json:"backend"`
+		Secs    float64 `json:"secs"`
+		Bytes   int     `json:"smt_bytes"`
+	}
+	var (
+		nObl, nDis    int
+		refutedKnown  []string
+		undecided     []string
+		byBackend     = map[string]map[string]float64{}
+		solverSecs    float64
+		funcsChecked  []string
+		trusted       = map[string]string{}
+		abstractions  = map[string][]string{}
+		havocked      = map[string]bool{}
+		inlined       = map[string]bool{}
+		effFree       = map[string]bool{}
+		axioms        = map[string]bool{}
+		assumeCount   int
+		loopsDecr     []string
+		loopsNoDecr   []string
+		samples       []map[string]interface{}
+		allObls       []oblRec
+		canaryTotal   int
+		canaryRefuted int
+		coversRun     int
+		coversOK      int
+		generated     = map[string]bool{}
+		knownLines    []string
+	)
+	for _, r := range results {
+		if r.enc == nil {
+			continue
+		}
+		isCanary := hasProp(r.spec.Props, "CANARY")
+		for _, m := range r.enc.errs {
+			if isCanary {
+				continue
+			}
+			failClosed(shortFunc(r.spec.Name)+"/encode", "function or contract outside the verifiable subset: "+m)
+		}
+		if !isCanary {
+			funcsChecked = append(funcsChecked, shortFunc(r.spec.Name))
+			for k, v := range r.enc.usedTrusted {
+				trusted[k] = v
+			}
+			for k := range r.enc.abstractions {
+				abstractions[shortFunc(r.spec.Name)] = append(abstractions[shortFunc(r.spec.Name)], k)
+			}
+			for k := range r.enc.usedHavoc {
+				havocked[k] = true
+			}
+			for k := range r.enc.usedInline {
+				inlined[k] = true
+			}
+			for k := range r.enc.usedEffFree {
+				effFree[k] = true
+			}
+			for _, a := range r.enc.axiomNames {
+				axioms[a] = true
+			}
+			assumeCount += r.enc.assumes
+			loopsDecr = append(loopsDecr, r.enc.loopsDecr...)
+			loopsNoDecr = append(loopsNoDecr, r.enc.loopsNoDecr...)
+		}
+		for _, o := range r.enc.obls {
+			if isCanary {
+				if o.Kind == "assert" {
+					canaryTotal++
+					if o.Result == "sat" {
+						canaryRefuted++
+					} else {
+						failClosed(o.Name, "canary (a deliberately false lemma) was not refuted: result "+o.Result+" — the pipeline cannot be trusted")
+					}
+				}
+				continue
+			}
+			if !hasProp(o.Props, prop) {
+				continue
+			}
+			generated[o.Name] = true
+			if o.Cover {
+				coversRun++
+				if o.Result == "unsat" || o.Result == "error" {
+					failClosed(o.Name, "vacuity guard: "+o.Kind+" "+o.Name+" is unreachable/unsatisfiable ("+o.Result+")")
+				} else {
+					coversOK++
+				}
+				continue
+			}
+			nObl++
+			solverSecs += o.Secs
+			bk := byBackend[o.Backend]
+			if bk == nil {
+				bk = map[string]float64{}
+				byBackend[o.Backend] = bk
+			}
+			bk["count"]++
+			bk["seconds"] += o.Secs
+			allObls = append(allObls, oblRec{o.Name, o.Result, o.Backend, o.Secs, o.QueryBytes})
+			if len(samples) < 3 && o.Result == "unsat" {
+				q := r.enc.buildQuery(o, false)
+				ls := strings.Split(q, "\n")
+				tail := ls
+				if len(tail) > 6 {
+					tail = tail[len(tail)-6:]
+				}
+				samples = append(samples, map[string]interface{}{"obligation": o.Name, "clause": o.Src, "at": fmt.Sprintf("%s:%d", shortFunc(o.Pos.Filename), o.Pos.Line), "smt_bytes": len(q), "smt_tail": tail, "backend": o.Backend})
+			}
+			if o.Result == "unsat" {
+				nDis++
+				if _, isKnown := knownByObl[o.Name]; isKnown {
+					// stale known finding: now proved
+				}
+				continue
+			}
+			// not discharged
+			if k, isKnown := knownByObl[o.Name]; isKnown {
+				refutedKnown = append(refutedKnown, o.Name)
+				knownLines = append(knownLines, fmt.Sprintf("KNOWN-FINDING: property=%s %s [obligation %s, witness %s]", prop, k.What, o.Name, k.Witness))
+				continue
+			}
+			if o.Result == "sat" {
+				rp := writeReplay(replayDir, prop, r, o)
+				viols = append(viols, violation{Obligation: o.Name, Reason: "refuted: " + o.Src, Replay: rp.path, NoInput: !rp.failedOnReal})
+				continue
+			}
+			if baseline == nil || baseline[o.Name] {
+				rp := writeReplay(replayDir, prop, r, o)
+				viols = append(viols, violation{Obligation: o.Name, Reason: "no longer discharged (" + o.Result + "): " + o.Src, Replay: rp.path, NoInput: true})
+				continue
+			}
+			undecided = append(undecided, o.Name)
+		}
+	}
+	// fail closed: explicit baseline obligations that were not generated
+	if baseline != nil {
+		var missing []string
+		for name := range baseline {
+			if !generated[name] && explicitKind(oblKindOf(name)) {
+				missing = append(missing, name)
+			}
+		}
+		sort.Strings(missing)
+		for _, m := range missing {
+			if _, isKnown := knownByObl[m]; isKnown {
+				continue
+			}
+			failClosed(m, "contract obligation of the baseline was not generated (function or clause no longer applies)")
+		}
+	}
+	if p != nil && canaryTotal == 0 {
+		failClosed(prop+"/canary", "no canary lemma ran")
+	}
+	if nObl == 0 && len(viols) == 0 {
+		failClosed(prop+"/vacuity", "no obligations generated")
+	}
+
+	// ---- report
+	for _, l := range knownLines {
+		fmt.Println(l)
+	}
+	exit := 0
+	for i := range viols {
+		v := &viols[i]
+		if v.Replay == "" {
+			v.Replay = writeNote(replayDir, prop, v.Obligation, v.Reason)
+		}
+		line := fmt.Sprintf("VIOLATION property=%s replay=%s", prop, v.Replay)
+		if v.NoInput {
+			line += " obligation=" + v.Obligation + " no-failing-input-found"
+		} else {
+			line += " obligation=" + v.Obligation
+		}
+		// the line must end with the words no-failing-input-found where no input replays
+		if v.NoInput {
+			line = fmt.Sprintf("VIOLATION property=%s replay=%s obligation=%s no-failing-input-found", prop, v.Replay, v.Obligation)
+		}
+		fmt.Println(line)
+		fmt.Fprintf(os.Stderr, "  %s: %s\n", v.Obligation, v.Reason)
+		exit = 1
+	}
+
+	level := "proof"
+	explanation := ""
+	if len(refutedKnown) > 0 || len(viols) > 0 {
+		level = "other"
+		explanation = fmt.Sprintf("%d of %d obligations discharged; %d refuted/undischarged obligations are listed known findings, %d are new violations: the property does not hold as stated on this tree", nDis, nObl, len(refutedKnown), len(viols))
+	}
+	sort.Strings(funcsChecked)
+	cov := map[string]interface{}{
+		"obligations":              nObl,
+		"discharged":               nDis,
+		"checker_cmd":              fmt.Sprintf("bin/govc check -prop %s -tier %s  (SSA of %s with -tags=verif -> SMT-LIB; z3 4.8.12 / z3 5.1.0 / cvc5 1.0.3 raced, %ds per obligation)", prop, *tier, *repoDir, secs),
+		"trusted_base":             trustedBase(trusted),
+		"refuted_known":            refutedKnown,
+		"undecided_not_in_baseline": undecided,
+		"by_backend":               byBackend,
+		"solver_seconds":           solverSecs,
+		"functions_under_contract": funcsChecked,
+		"trusted_contracts":        trusted,
+		"abstractions":             abstractions,
+		"callees_havocked":         keysOf(havocked),
+		"callees_inlined":          keysOf(inlined),
+		"callees_effectfree":       keysOf(effFree),
+		"axioms":                   keysOf(axioms),
+		"assume_count":             assumeCount,
+		"loops_with_decreases":     loopsDecr,
+		"loops_without_decreases":  loopsNoDecr,
+		"canary":                   map[string]int{"run": canaryTotal, "refuted": canaryRefuted},
+		"vacuity":                  map[string]int{"covers_run": coversRun, "reachable": coversOK},
+		"samples":                  samples,
+		"obligation_list":          allObls,
+		"integers":                 "mathematical Int with explicit two's-complement wrap-around per Go type (or an overflow obligation where the contract says `option nooverflow`)",
+	}
+	if explanation != "" {
+		cov["explanation"] = explanation
+	}
+	if len(samples) == 0 {
+		cov["samples"] = []map[string]interface{}{{"note": "no discharged obligation on this run"}}
+	}
+	ev := map[string]interface{}{
+		"property_id": prop,
+		"tier":        *tier,
+		"seed":        seed,
+		"level":       level,
+		"coverage":    cov,
+		"assumptions": globalAssumptions(trusted, abstractions),
+		"wall_s":      time.Since(start).Seconds(),
+		"violations":  len(viols),
+	}
+	b, _ := json.MarshalIndent(ev, "", " ")
+	_ = os.WriteFile(evPath, b, 0o644)
+	fmt.Fprintf(os.Stderr, "%s: %d/%d obligations discharged, %d known findings, %d violations, %.1fs\n", prop, nDis, nObl, len(refutedKnown), len(viols), time.Since(start).Seconds())
+	return exit
+}
+
+func keysOf(m map[string]bool) []string {
+	ks := make([]string, 0, len(m))
+	for k := range m {
+		ks = append(ks, k)
+	}
+	sort.Strings(ks)
+	return ks
+}
+
+func trustedBase(trusted map[string]string) []string {
+	tb := []string{
+		"govc (this VC generator), go/types, go/ssa (x/tools v0.29.0)",
+		"SMT solvers z3 4.8.12, z3 5.1.0, cvc5 1.0.3 (an `unsat` from any one is accepted)",
+		"Go compiler implements the encoded semantics (wrap-around integers, bounds checks, append in place iff capacity suffices)",
+	}
+	for _, k := range sortedKeys(trusted) {
+		tb = append(tb, "assumed contract: "+k+" — "+trusted[k])
+	}
+	return tb
+}
+
+func globalAssumptions(trusted map[string]string, abstractions map[string][]string) []string {
+	as := []string{
+		"sequential execution of each verified function: no other goroutine writes the state it reads",
+		"typed memory: distinct Go types do not alias (unsafe casts are covered by trusted contracts only)",
+		"no slice has more than 2^47 elements; allocation is a bump allocator (fresh blocks are disjoint from all earlier ones)",
+		"nil-dereference of pointers received from callers/memory is not an obligation unless a contract states it",
+		"floats are modelled as reals (no NaN/Inf) outside the functions that use the IEEE rounding model",
+		"callees without a contract: results arbitrary, every region they could write (by effect inference over their bodies) arbitrary; logging/formatting callees are effect-free",
+	}
+	if len(abstractions) > 0 {
+		as = append(as, "abstracted instruction classes (results arbitrary): "+fmt.Sprint(abstractions))
+	}
+	return as
+}
+
+type replayResult struct {
+	path         string
+	failedOnReal bool
+}
+
+func writeNote(dir, prop, obl, reason string) string {
+	path := filepath.Join(dir, sanitizeFile(prop+"_"+obl)+".json")
+	b, _ := json.MarshalIndent(map[string]interface{}{"property": prop, "obligation": obl, "reason": reason, "replayable": false}, "", " ")
+	_ = os.WriteFile(path, b, 0o644)
+	return path
+}
+
+// runPropWithCanaries runs the property's functions plus every CANARY lemma of the loaded packages.
+func runPropWithCanaries(p *Prog, prop string, secs int, smtDir string) ([]*funcResult, []string) {
+	res, problems := runProp(p, prop, secs, smtDir)
+	can, _ := runProp(p, "CANARY", secs, smtDir)
+	return append(res, can...), problems
+}
